@@ -106,6 +106,7 @@ type obsSample struct {
 	Choices map[string]int
 	Log     []string
 	Sched   []schedStep
+	Gors    int // non-environment goroutines
 }
 
 func (e *Engine) inRepo(fn *ssa.Function) bool {
